@@ -49,6 +49,7 @@ Always(P, as) ==
        "C12", "live blocks overlap or are misplaced">>,
      <<\A x \in LiveOf(as) : x.tag >= 0, "C12", "content of a live block was altered by an operation on another block">>,
      <<P.size = RealSize(as), "C11", "full_ckpt_size differs from the bytes a checkpoint of the current state needs">>,
+     <<P.size = RealSize(as), "C05", "full_ckpt_size differs from the bytes a checkpoint of the current state needs (checkpoints will be cut short or overflow: a later restore brings back wrong bytes)">>,
      <<\A j \in 1..(Len(P.refs) - 1) : P.refs[j] < P.refs[j + 1], "C13", "checkpoint references are not increasing">> >>
 
 \* adopt the reported state
